@@ -22,6 +22,7 @@ import (
 	"errors"
 	"fmt"
 	"net"
+	"net/netip"
 	"net/url"
 	"slices"
 	"strings"
@@ -67,13 +68,23 @@ func ParsePublicURLWithScheme(input string, allowReserved bool, allowedSchemes .
 	if len(allowedSchemes) > 0 && !slices.Contains(allowedSchemes, parsed.Scheme) {
 		return nil, fmt.Errorf("scheme must be %s", strings.Join(allowedSchemes, " or "))
 	}
-	if net.ParseIP(parsed.Hostname()) != nil && !allowReserved {
+	if isIPAddress(parsed.Hostname()) && !allowReserved {
 		return nil, errors.New("hostname is IP")
 	}
 	if !allowReserved && isReserved(parsed) {
 		return nil, errors.New("hostname is RFC2606 reserved")
 	}
 	return parsed, nil
+}
+
+// isIPAddress returns true if the host is an IP address, including an IPv6 address with a zone (fe80::1%eth0),
+// which net.ParseIP does not accept but a dialer does.
+func isIPAddress(host string) bool {
+	if net.ParseIP(host) != nil {
+		return true
+	}
+	_, err := netip.ParseAddr(host)
+	return err == nil
 }
 
 // isReserved returns true if URL uses any of the reserved TLDs or addresses
